@@ -25,3 +25,14 @@ Proof.
   intros Hne Hpos. unfold encode_bits_list, src_encode_bits. rewrite (mask_of_fold bits Hpos). cbn [rbind].
   destruct bits as [|x r]; [congruence|]. reflexivity.
 Qed.
+
+(* Variable.read / Variable.write: the dispatch on fmt as translated from the source text is the model's rw_route
+   (the methods do nothing else than go through the raw / phys / desc property that the format names). *)
+Theorem src_read_route_eq fmt : src_read_route fmt = rw_route fmt.
+Proof. unfold src_read_route, rw_route, FMT_RAW, FMT_PHYS, FMT_DESC. reflexivity. Qed.
+
+Theorem src_write_route_eq fmt : src_write_route fmt 0 = rw_route fmt.
+Proof.
+  unfold src_write_route, rw_route, FMT_RAW, FMT_PHYS, FMT_DESC.
+  destruct (fmt =? 0); [reflexivity|]. destruct (fmt =? 1); [reflexivity|]. destruct (fmt =? 2); reflexivity.
+Qed.
